@@ -15,6 +15,8 @@ theorem packGroup_unpackByte : ∀ b, b < 256 → ∀ o : BitOrder, packGroup o 
   · revert b; decide +kernel
   · revert b; decide +kernel
 
+set_option synthInstance.maxSize 4096 in
+set_option synthInstance.maxHeartbeats 400000 in
 /-- the other direction, all 2·256 rows `(eight bits, order)` -/
 theorem unpackByte_packGroup : ∀ o : BitOrder,
     ∀ x0, x0 < 2 → ∀ x1, x1 < 2 → ∀ x2, x2 < 2 → ∀ x3, x3 < 2 → ∀ x4, x4 < 2 → ∀ x5, x5 < 2 → ∀ x6, x6 < 2 → ∀ x7, x7 < 2 →
@@ -44,7 +46,8 @@ theorem unpackByte_bits (o : BitOrder) (b : Nat) : ∀ x ∈ unpackByte o b, x <
   have h1 : ∀ idx : Nat, (b >>> idx) &&& 1 < 2 := fun idx => by
     have := @Nat.and_le_right (b >>> idx) 1; omega
   unfold unpackByte at hx
-  cases o <;> simp at hx <;> obtain ⟨i, _, rfl⟩ := hx <;> exact h1 i
+  cases o <;> simp only [List.mem_map, List.mem_reverse, if_true, reduceCtorEq, if_false] at hx <;>
+    obtain ⟨i, _, rfl⟩ := hx <;> exact h1 i
 
 /-! ### packing, one group at a time -/
 
@@ -60,7 +63,7 @@ theorem pad8_idem (xs : List Nat) : pad8 (pad8 xs) = pad8 xs := pad8_of_dvd _ (p
 
 theorem pad8_append8 (g rest : List Nat) (hg : g.length = 8) : pad8 (g ++ rest) = g ++ pad8 rest := by
   unfold pad8
-  have : (g ++ rest).length % 8 = rest.length % 8 := by simp [hg]; omega
+  have : (g ++ rest).length % 8 = rest.length % 8 := by simp [hg]
   rw [this]; split <;> simp
 
 theorem group8_zero (g rest : List Nat) (hg : g.length = 8) : group8 (g ++ rest) 0 = .ok g := by
